@@ -1436,6 +1436,15 @@ def record_fields(v, class_of=None):
         d = {("sub", k[1]): x for k, x in v[1]}
         d[("len",)] = ("const", len(v[1]))
         return d
+    if v[0] == "record" and len(v) >= 3:
+        # a record already reconstructed by Flow (a namedtuple row written out by normalisation, a dataclass / NamedTuple built from
+        # known field values): fields by name; for named tuples (and rows of unknown type) by position as well
+        d = {("attr", nm): x for nm, x in v[2]}
+        cd_ = class_of(v[1]) if class_of is not None and isinstance(v[1], str) and v[1].isidentifier() else None
+        if not (isinstance(cd_, ast.ClassDef) and any("dataclass" in ast.unparse(d_) for d_ in cd_.decorator_list)):
+            d.update({("sub", i): x for i, (_, x) in enumerate(v[2])})
+            d[("len",)] = ("const", len(v[2]))
+        return d
     if v[0] != "call" or v[1][0] != "global" or class_of is None or any(a[0] == "star" for a in v[2]) or any(k == "**" for k, _ in v[3]):
         return None
     cd = class_of(v[1][1])
